@@ -5,7 +5,7 @@
 
 package vswitch
 
-//@ for C17
+//@ for C17 C15
 
 //@ # cache snapshot: the vSwitch a lookup of id yields during this call
 //@ pure func swOf(id string) *Switch
